@@ -1,4 +1,5 @@
 import EpdVerif.AuditCmd
 import EpdVerif.Props.C07
+import EpdVerif.Props.C07Clear
 import EpdVerif.Props.Panels
 #audit_namespace EpdVerif.Props.C07
